@@ -126,6 +126,8 @@ static uint64_t battery(hwloc_topology_t t, int yieldmask) {
     hwloc_bitmap_free(cs); }
   /* exports */
   { char *xb = NULL; int xl = 0; if (!hwloc_topology_export_xmlbuffer(t, &xb, &xl, 0)) { h = fnv(h, xb, (size_t)xl); hwloc_free_xmlbuffer(t, xb); } }
+  /* the older format too: exporting is a consulting call whatever the format */
+  { char *xb = NULL; int xl = 0; if (!hwloc_topology_export_xmlbuffer(t, &xb, &xl, HWLOC_TOPOLOGY_EXPORT_XML_FLAG_V2)) { h = fnv(h, xb, (size_t)xl); hwloc_free_xmlbuffer(t, xb); } }
   { char syn[2048]; int r = hwloc_topology_export_synthetic(t, syn, sizeof syn, 0); h = fnvu(h, (uint64_t)r); if (r > 0) h = fnvs(h, syn); }
   return h;
 }
@@ -141,6 +143,9 @@ static void annotate(hwloc_topology_t t) {
     for (i = 0; i < n; i++) objs[i] = hwloc_get_obj_by_type(t, HWLOC_OBJ_PU, i);
     for (a = 0; a < n; a++) for (b = 0; b < n; b++) vals[a * n + b] = a == b ? 10 : 20 + a + b;
     h = hwloc_distances_add_create(t, "hwvthreads", HWLOC_DISTANCES_KIND_FROM_USER | HWLOC_DISTANCES_KIND_VALUE_LATENCY, 0);
+    if (h && !hwloc_distances_add_values(t, h, n, objs, vals, 0)) hwloc_distances_add_commit(t, h, 0);
+    /* a second structure whose values are hops: the older XML format has no such kind and the exporter translates it */
+    h = hwloc_distances_add_create(t, "hwvhops", HWLOC_DISTANCES_KIND_FROM_USER | HWLOC_DISTANCES_KIND_VALUE_HOPS, 0);
     if (h && !hwloc_distances_add_values(t, h, n, objs, vals, 0)) hwloc_distances_add_commit(t, h, 0);
   }
   if (nn >= 1) {
